@@ -4,8 +4,8 @@ import (
 	"bytes"
 	"encoding/base64"
 	"encoding/binary"
-	"errors"
 	"encoding/hex"
+	"errors"
 	"fmt"
 	"os"
 	"os/exec"
@@ -15,6 +15,7 @@ import (
 
 	crypt "github.com/sergeymakinen/go-crypt"
 	"github.com/sergeymakinen/go-crypt/argon2/argon2crypto"
+	xargon2 "golang.org/x/crypto/argon2"
 	"golang.org/x/crypto/blake2b"
 )
 
@@ -81,6 +82,22 @@ func c04Grid(seed uint64, tier string) []a2cfg {
 	}
 	for kl := 1; kl <= maxTag; kl += step {
 		out = append(out, a2cfg{kl % 3, []int{0x13, 0x10}[(kl/3)%2], r.bytes(r.intn(20)), r.bytes(8 + r.intn(8)), 1, 8, uint32(kl), 1})
+	}
+	// segments longer than one address block (128 references) and not a multiple of it, many lanes, several passes:
+	// too large for the extracted model in the quick tier; judged by golang.org/x/crypto/argon2 (an independent
+	// implementation of RFC 9106, version 0x13, Argon2i / Argon2id) and by the purego / SSE2 builds
+	for i, c := range []struct {
+		m uint32
+		p uint8
+		t uint32
+	}{{512, 1, 1}, {516, 1, 1}, {1000, 1, 2}, {1030, 1, 1}, {1536, 1, 1}, {2400, 3, 1}, {6000, 2, 1}, {4100, 4, 2}, {136, 17, 1}, {137, 17, 2}, {160, 20, 1},
+		{264, 33, 1}, {800, 100, 1}, {2040, 255, 1}, {2047, 255, 2}, {1100, 16, 1}, {1100, 17, 1}} {
+		for mode := 1; mode <= 2; mode++ {
+			out = append(out, a2cfg{mode, 0x13, r.bytes(r.intn(20)), r.bytes(8 + r.intn(8)), c.t, c.m, 32, c.p})
+		}
+		// the same shapes for Argon2d and version 0x10 (no second implementation: model in the thorough tier)
+		out = append(out, a2cfg{[]int{0, 1, 2}[i%3], 0x10, r.bytes(r.intn(20)), r.bytes(8 + r.intn(8)), c.t, c.m, 32, c.p})
+		out = append(out, a2cfg{0, 0x13, r.bytes(r.intn(20)), r.bytes(8 + r.intn(8)), c.t, c.m, 32, c.p})
 	}
 	for _, kl := range []uint32{159, 160, 161, 191, 192, 193, 223, 224, 225, 255, 256, 257, 288, 512, 1000, 1024, 1056} {
 		out = append(out, a2cfg{int(kl) % 3, 0x13, r.bytes(r.intn(20)), r.bytes(8 + r.intn(8)), 1, 8, kl, 1})
@@ -182,10 +199,24 @@ func corrC04(outDir string, seed uint64, tier string, replay string) *report {
 			rep.fail(c.String(), hex.EncodeToString(key), pure[i], "key differs between the assembly and the portable Go (purego) build")
 		}
 		// the model (RFC 9106 structure with the real BLAKE2b): small memories only (evaluated below, in parallel)
-		if c.memory <= 40 || i%5 == 0 || c.memory <= 8*uint32(c.threads)+8 && tier == "thorough" {
+		if c.memory <= 40 || i%5 == 0 && c.memory < 300 || (c.memory <= 140 || c.memory < 300 && c.version == 0x10) && c.threads >= 17 || c.memory <= 8*uint32(c.threads)+8 && c.memory < 700 && tier == "thorough" || tier == "thorough" && i%9 == 0 && c.memory <= 1100 {
 			modelReqs = append(modelReqs, fmt.Sprintf("argon2 %d %d %s %s %d %d %d %d", c.mode, c.version, hx(c.pw), hx(c.salt), c.time, c.memory, c.threads, c.keyLen))
 			modelIdx = append(modelIdx, i)
 			implKeys = append(implKeys, hx(key))
+		}
+		// golang.org/x/crypto/argon2: an independent implementation (version 0x13, Argon2i and Argon2id only)
+		if c.version == 0x13 && c.mode >= 1 && c.keyLen >= 4 && len(c.salt) > 0 {
+			var x []byte
+			if c.mode == 1 {
+				x = xargon2.Key(c.pw, c.salt, c.time, c.memory, c.threads, c.keyLen)
+			} else {
+				x = xargon2.IDKey(c.pw, c.salt, c.time, c.memory, c.threads, c.keyLen)
+			}
+			if !bytes.Equal(x, key) {
+				rep.fail(map[string]interface{}{"config": c.String(), "password_hex": hx(c.pw), "salt_hex": hx(c.salt)}, "x/crypto/argon2: "+hex.EncodeToString(x), "argon2crypto.Key: "+hex.EncodeToString(key),
+					"key differs from golang.org/x/crypto/argon2 (independent RFC 9106 implementation)")
+			}
+			rep.bump("xcrypto_compared")
 		}
 		// OpenSSL's independent Argon2 (secondary oracle)
 		if i%3 == 0 && len(c.salt) >= 8 && c.keyLen >= 4 && i < 120 {
